@@ -4,12 +4,17 @@ EXPLANATION = ("Cast and width audit over the MIR of the whole crate: every inte
                "of its operand (value provenance: count/index of states, groups, classes vs. user supplied token types); indices "
                "that count automaton states or partition groups must never pass through a type narrower than the state id; the "
                "group-id alias must be at least as wide as the state-id alias. usize->u32 casts on counts are accepted under the "
-               "stated memory-bound assumption and listed. Says nothing about build time or memory of such automata.")
-RULES = {"C17.a"}
+               "stated memory-bound assumption and listed. No comparison with a size threshold anywhere in the library (no algorithm "
+               "switch above N elements); the size-independent side conditions of the pipeline and the priority search are re-checked. "
+               "Says nothing about build time or memory of such automata.")
+RULES = {"C17.a", "C17.c"}
 
 
 def check(ctx):
     casts.analyze(ctx, RULES)
+    # the tie-breaker reads the priority as a position found by one front-to-back search, whatever the number of terminals
+    from .pC01 import priority_rules
+    priority_rules(ctx)
     # "compiles correctly": the size-independent side conditions of the pipeline are part of this property too
     from .common import cache_foundation, language_foundation
     language_foundation(ctx)
